@@ -259,6 +259,8 @@ func successors(p *program, reduced bool, must string) []*program {
 type progVariant struct {
 	initAsInput string // name of an initializer also listed as graph input ("" = none)
 	supply      bool   // caller supplies a different value for it
+	decl        string // how graph inputs are declared: "" fixed dims | symbolic | typeonly (no shape)
+	passthrough bool   // the initializer w1 and the graph input a are declared as graph outputs too
 }
 
 // build marshals the program and computes the reference environment.
@@ -267,7 +269,14 @@ func buildProgram(p *program, valueSet int, pv progVariant) (*modelCase, string)
 	inits := map[string]*ref.T{"w1": recFill(ref.F32, []int{2, 2}, 21), "w2": recFill(ref.F32, []int{2, 2}, 22)}
 	g := &onnx.GraphProto{Name: "g"}
 	for _, n := range []string{"a", "b", "s", "h"} {
-		g.Input = append(g.Input, hx.ValueInfo(n, ref.F32, hx.FixedDims(feedAll[n].Shape)))
+		switch pv.decl {
+		case "symbolic":
+			g.Input = append(g.Input, hx.ValueInfo(n, ref.F32, hx.SymbolicDims(len(feedAll[n].Shape), n+"_d")))
+		case "typeonly":
+			g.Input = append(g.Input, hx.ValueInfoTypeOnly(n, ref.F32))
+		default:
+			g.Input = append(g.Input, hx.ValueInfo(n, ref.F32, hx.FixedDims(feedAll[n].Shape)))
+		}
 	}
 	env := map[string]*ref.T{}
 	for k, v := range feedAll {
@@ -301,6 +310,13 @@ func buildProgram(p *program, valueSet int, pv progVariant) (*modelCase, string)
 	}
 	expect := "outputs"
 	expected := map[string]*ref.T{}
+	if pv.passthrough {
+		// a graph may declare an initializer (here w1: the default or the caller's value) or a graph input as output
+		for _, o := range []string{"w1", "a"} {
+			expected[o] = env[o]
+			g.Output = append(g.Output, hx.ValueInfoNoShape(o))
+		}
+	}
 	for _, n := range p.Nodes {
 		g.Node = append(g.Node, hx.Node(n.Op, n.In, n.Out, n.Attrs))
 		ins := make([]*ref.T, len(n.In))
@@ -335,7 +351,7 @@ func checkC01(c *hx.Checker) {
 		"Templates: Add/Sub/Mul (all ordered pairs for Sub), Relu, Transpose, Softmax{axis=-1}, Softmax{axis=0}, MatMul, Gemm{transB}, Gemm{transA,alpha=.5,beta=2} (C wired / omitted / empty), Concat+Slice, Reshape, Squeeze, Constant, RNN/GRU/LSTM with default and with explicit non-default activations (initial_h omitted / empty / wired; 5 output naming schemes: arbitrary, spec names, permuted spec names, trailing output omitted, skipped output with empty name). " +
 		"BFS: all programs of depth <= 2 over the full alphabet; depth 3 over the reduced alphabet {Sub, Relu, Transpose, Gemm2, GRU} as chains (each node consumes its predecessor's result)" +
 		map[bool]string{true: " and, thorough, unrestricted depth 3 over the reduced alphabet plus ALL depth-3 programs over the full alphabet (streamed simplest-first under a 25-minute budget; the evidence says whether it completed)", false: ""}[thorough] +
-		"; 2 input value sets; every depth<=1 program also with w1 declared as graph input (not supplied / supplied with another value). Every program is marshalled, loaded with NewModelFromBytes and Run with EVERY intermediate value declared as graph output, and compared value by value with the reference evaluation of the same graph. " +
+		"; 2 input value sets; every depth<=1 program also with w1 declared as graph input (not supplied / supplied with another value), with the graph inputs declared with symbolic dims / without shape, and with the initializer w1 and the graph input a declared as graph outputs (passthrough); scalar (rank-0) graph inputs with and without an initializer default. Every program is marshalled, loaded with NewModelFromBytes and Run with EVERY intermediate value declared as graph output, and compared value by value with the reference evaluation of the same graph. " +
 		"states = program prefixes, transitions = appended node instances; non-trivial = programs with >= 1 node"
 	c.Assumptions = []string{"reference evaluator: ref interpreter applied node by node to a name->tensor environment (refeval.go)", "tolerance 1e-4 (abs+rel) on float32 values of magnitude <= ~10",
 		"a node listing fewer output names than the operator returns may be refused (positional binding with length check) but must never yield nil / missing outputs"}
@@ -355,9 +371,15 @@ func checkC01(c *hx.Checker) {
 		for vs := 0; vs < 2; vs++ {
 			items = append(items, item{p, vs, progVariant{}})
 		}
-		items = append(items, item{p, 0, progVariant{"w1", false}}, item{p, 0, progVariant{"w1", true}})
+		items = append(items, item{p, 0, progVariant{initAsInput: "w1"}}, item{p, 0, progVariant{initAsInput: "w1", supply: true}})
+		for _, d := range []string{"symbolic", "typeonly"} {
+			items = append(items, item{p, 1, progVariant{decl: d}})
+		}
+		items = append(items, item{p, 0, progVariant{passthrough: true}}, item{p, 1, progVariant{initAsInput: "w1", passthrough: true}},
+			item{p, 0, progVariant{initAsInput: "w1", supply: true, passthrough: true}}, item{p, 1, progVariant{decl: "typeonly", initAsInput: "w1", supply: true, passthrough: true}})
 	}
-	items = append(items, item{root, 0, progVariant{}}, item{root, 0, progVariant{"w1", true}})
+	items = append(items, item{root, 0, progVariant{}}, item{root, 0, progVariant{initAsInput: "w1", supply: true}}, item{root, 0, progVariant{passthrough: true}},
+		item{root, 0, progVariant{initAsInput: "w1", passthrough: true}}, item{root, 0, progVariant{initAsInput: "w1", supply: true, passthrough: true}})
 	var level2 []*program
 	for _, p := range level1 {
 		succ := successors(p, false, "")
@@ -409,6 +431,12 @@ func checkC01(c *hx.Checker) {
 		if it.pv.initAsInput != "" {
 			tags = append(tags, "initializer-as-input", fmt.Sprintf("supplied=%v", it.pv.supply))
 		}
+		if it.pv.decl != "" {
+			tags = append(tags, "inputs-declared="+it.pv.decl)
+		}
+		if it.pv.passthrough {
+			tags = append(tags, "passthrough-outputs")
+		}
 		id := fmt.Sprintf("prog[%s]/vs%d/%+v", it.p.text(), it.vs, it.pv)
 		var sample any
 		if i%2500 == 1 {
@@ -417,6 +445,52 @@ func checkC01(c *hx.Checker) {
 		c.Case(hx.CaseInfo{ID: id, Tags: tags, NonTrivial: len(it.p.Nodes) > 0, Sample: sample}, func() *hx.Violation { return mc.run() })
 	}
 	c.ParallelFor(len(items), func(i int) { runItem(i, items[i]) })
+	// scalar (rank-0) graph inputs: declared with an empty shape or without shape, with / without an initializer
+	// default, supplied or left to the default, also declared as graph output
+	{
+		x := recFill(ref.F32, []int{2, 2}, 31)
+		k3, k2 := ref.FromF(ref.F32, []int{}, 3), ref.FromF(ref.F32, []int{}, 2)
+		for _, decl := range []string{"rank0", "typeonly"} {
+			for _, def := range []bool{false, true} {
+				for _, supply := range []bool{false, true} {
+					for _, pass := range []bool{false, true} {
+						if !def && !supply {
+							continue
+						}
+						g := &onnx.GraphProto{Name: "g"}
+						g.Input = append(g.Input, hx.ValueInfo("x", ref.F32, hx.FixedDims(x.Shape)))
+						if decl == "rank0" {
+							g.Input = append(g.Input, hx.ValueInfo("k", ref.F32, []hx.DimSpec{}))
+						} else {
+							g.Input = append(g.Input, hx.ValueInfoTypeOnly("k", ref.F32))
+						}
+						kv := k3
+						feed := map[string]*ref.T{"x": x}
+						if def {
+							g.Initializer = append(g.Initializer, hx.TensorProto("k", k2, "raw"))
+							kv = k2
+						}
+						if supply {
+							feed["k"] = k3
+							kv = k3
+						}
+						g.Node = append(g.Node, hx.Node("Mul", []string{"x", "k"}, []string{"y"}, nil))
+						g.Output = append(g.Output, hx.ValueInfoNoShape("y"))
+						y, _ := ref.Binary("Mul", x, kv)
+						exp := map[string]*ref.T{"y": y}
+						if pass {
+							g.Output = append(g.Output, hx.ValueInfoNoShape("k"))
+							exp["k"] = kv
+						}
+						mc := newModelCase(hx.Marshal(hx.Model(g, 13)), feed, "outputs", exp, hx.Bits, "")
+						id := fmt.Sprintf("scalar-input/decl=%s default=%v supplied=%v passthrough=%v", decl, def, supply, pass)
+						mc.Graph = "y = Mul(x, k) with k a rank-0 graph input"
+						c.Case(hx.CaseInfo{ID: id, Tags: []string{"scalar-input", "decl=" + decl, fmt.Sprintf("default=%v", def), fmt.Sprintf("supplied=%v", supply)}, NonTrivial: true}, func() *hx.Violation { return mc.run() })
+					}
+				}
+			}
+		}
+	}
 	if thorough {
 		// depth 3 over the FULL alphabet, streamed per depth-2 prefix (simplest first) under a wall-clock budget
 		c.SetBudget(25 * time.Minute)
